@@ -70,11 +70,15 @@ def sample(make, k, snaps, runs, hrnd, interference=False):
     snapset = set(snaps)
     for _ in range(runs):
         st = make()
+        first = make() if interference else None      # a second storage fed the very same dict objects (e.g. two explainers)
         at = hrnd.randrange(nmax) if interference and hrnd.random() < 0.5 else -1
         for i in range(nmax):
             if i == at:
                 interfere()
-            st.update({"t": i})
+            obs = {"t": i}
+            if first is not None:
+                first.update(obs)
+            st.update(obs)
             n = i + 1
             if n in snapset:
                 xs = list(st.get_data()[0])
@@ -102,7 +106,7 @@ def pair_picks(k, n):
 
 def main(run):
     from ixai.storage import UniformReservoirStorage
-    run.rule = ("R independent UniformReservoirStorage instances per (k, snapshot grid), every third configuration with other library objects (TreeStorage with a seed, other storages, trackers) constructed and used mid-stream; exact two-sided binomial cell "
+    run.rule = ("R independent UniformReservoirStorage instances per (k, snapshot grid), every third configuration with other library objects (TreeStorage with a seed, other storages, trackers) constructed and used mid-stream and with a second reservoir fed the very same dict objects; exact two-sided binomial cell "
                 "tests with Bonferroni-split budget eps=1e-9 per run: inclusion indicator of individual arrivals "
                 "(k/n), every k-subset for k<=3,n<=7 (1/C(n,k)), pair co-inclusion k(k-1)/(n(n-1)), arrival-time "
                 "bucket of a harness-chosen random stored item (|bucket|/n); evaluations = independent storage "
